@@ -209,7 +209,7 @@ class Peer(object):
                 result = int(result)
             except ValueError:
                 pass
-        return result if isinstance(result, int) else None
+        return result if isinstance(result, int) and not isinstance(result, bool) else None
 
     def _string(self, key):
         result = self.features.get(key)
